@@ -9,7 +9,8 @@ Generator of Python module sources whose doctest INVENTORY and LINE NUMBERS are 
               methods (plain / static / class / property getter, decorated or not) defined at module
               level or directly in a module-level class, through any nesting of if / try / with / for /
               while; NOT: functions and classes nested in functions or in classes, property setters and
-              deleters, anything under the ``__main__`` guard
+              deleters, the block guarded by ``if __name__ == '__main__':`` (either spelling; its ``else:`` branch IS
+              collected: an import executes it)
   docs        callname -> DocInfo (where the literal starts / ends, expected examples per style, the file
               line of every prompt)
   fragment    True when the module is inside the fragment of C16 (every branch that holds definitions is
@@ -117,6 +118,7 @@ class _Gen(object):
         self.counter = 0
         self.fail_budget = 1 if opts.inject_failure else 0
         self.all_stmts = []   # (callname, DocInfo, Block or None, Stmt)
+        self.guard_done = False
         self.nested_top = set()   # module-level functions defined inside a compound statement or unexecuted
 
     def name(self, prefix):
@@ -145,8 +147,18 @@ class _Gen(object):
         """a statement that fails; returns (lines, want, kind, offset of the failing line in the statement
         or 'want')"""
         r = self.rng
-        kind = r.choice(['exc-multi', 'exc-called', 'gotwant', 'exc-simple', 'exc-helper', 'gotwant-multi'])
+        kind = r.choice(['exc-multi', 'exc-called', 'gotwant', 'exc-simple', 'exc-helper', 'gotwant-multi',
+                         'exc-finally', 'exc-reraise', 'exc-finally-loop'])
         k = r.randint(0, 99)
+        # the raising statement inside try/finally or try/except...raise: the frame goes on executing the cleanup
+        # suite while the exception unwinds, so frame.f_lineno differs from the traceback entry's tb_lineno
+        if kind == 'exc-finally':
+            return ['try:', '    v%d = %d // 0' % (k, k), 'finally:', '    w%d = 2' % k, '    u%d = 3' % k], [], kind, 1
+        if kind == 'exc-reraise':
+            return ['try:', '    v%d = %d // 0' % (k, k), 'except ZeroDivisionError:', '    w%d = 2' % k, '    raise'], [], kind, 1
+        if kind == 'exc-finally-loop':
+            return ['for i%d in range(2):' % k, '    try:', '        v%d = [%d,' % (k, k), '               %d // 0]' % k,
+                    '    finally:', '        w%d = 2' % k], [], kind, 3
         if kind == 'exc-multi':
             # the raising sub-expression is on the 2nd or 3rd line of the statement
             pos = r.choice([1, 2])
@@ -185,7 +197,7 @@ class _Gen(object):
                 ln = m.emit(pad + d.prefix + qq + 'summary of %s' % callname + qq)
             else:
                 ln = m.emit(pad + d.prefix + d.quote + 'Summary of %s.' % callname + d.quote +
-                            r.choice(['', '', '  # trailing comment']))
+                            r.choice(['', '', '  # trailing comment', '   ', '\t']))
             d.start = d.end = ln
             m.features.add('doc:oneline')
             return d
@@ -236,7 +248,14 @@ class _Gen(object):
             m.emit(pad + 'No examples here, only text: a >> b, c > d.')
         # closing
         c = r.random()
-        if c < 0.7:
+        if c < 0.12:
+            # trailing blanks / a tab after the closing quotes (legal, invisible)
+            d.end = m.emit(pad + d.quote + r.choice(['   ', ' ', '\t', '  \t ']))
+            m.features.add('doc:close-trailing-ws')
+        elif c < 0.18:
+            d.end = m.emit(pad + d.quote + r.choice(['  # end   ', '\t# end\t']))
+            m.features.add('doc:close-comment-trailing-ws')
+        elif c < 0.7:
             d.end = m.emit(pad + d.quote)
         elif c < 0.85:
             d.end = m.emit(pad + d.quote + '  # end of docstring')
@@ -288,7 +307,7 @@ class _Gen(object):
         # a statement may consist of several top-level statements (exc-called, exc-helper): every
         # line that is not a continuation gets a PS1 prompt
         for i, l in enumerate(lines):
-            cont = i > 0 and (l.startswith(' ') or l.startswith(')') or l.startswith(']'))
+            cont = i > 0 and l.startswith((' ', ')', ']', 'finally:', 'except ', 'except:', 'else:'))
             ln = m.emit(inner + ('... ' if cont else '>>> ') + l)
             stmt_lines.append(ln)
             if first is None:
@@ -505,6 +524,45 @@ class _Gen(object):
             emit_inner(indent + 4)
             m.emit(pad + '    break')
 
+    def emit_main_guard(self):
+        """`if __name__ == '__main__':` in either spelling: the guarded definitions must not be collected; an
+        `else:` branch is ordinary module-level code (it is what an import executes) and is collected"""
+        r = self.rng
+        m = self.m
+        self.guard_done = True
+        m.features.add('main-guard')
+        m.emit('')
+        spelling = r.choice(["if __name__ == '__main__':", 'if __name__ == "__main__":',
+                             "if '__main__' == __name__:", 'if "__main__" == __name__:'])
+        if spelling.startswith(('if \'__main__', 'if "__main__')):
+            m.features.add('main-guard:reversed')
+        m.emit(spelling)
+        n0 = len(m.inventory)
+        d0 = dict(m.docs)
+        keep = list(self.all_stmts)
+        if r.random() < 0.6:
+            self.emit_func(4, 'module')
+        else:
+            self.emit_class(4)
+        for cname, _ in m.inventory[n0:]:
+            m.hidden.append(cname)
+        del m.inventory[n0:]
+        for kname in list(m.docs):
+            if kname not in d0:
+                self.forget(m.docs[kname])
+                del m.docs[kname]
+        self.all_stmts = [t for t in self.all_stmts if t in keep]
+        m.emit('    print(1)')
+        if r.random() < 0.4:
+            m.features.add('main-guard:else')
+            m.emit('else:')
+            if r.random() < 0.7:
+                self.nested_top.add(self.emit_func(4, 'module'))
+            else:
+                self.emit_class(4)
+            if r.random() < 0.3:
+                self.nested_top.add(self.emit_func(4, 'module'))
+
     def emit_top(self):
         r = self.rng
         m = self.m
@@ -541,6 +599,8 @@ class _Gen(object):
             m.fragment = False
             m.emit(r.choice(['if FLAG:', 'if False:']))
             self.nested_top.add(self.emit_func(4, 'module'))
+        elif c < 0.97 and not self.guard_done:
+            self.emit_main_guard()
         else:
             m.emit('')
             m.emit('# a comment line')
@@ -592,27 +652,8 @@ class _Gen(object):
             self.emit_top()
             if r.random() < 0.5:
                 m.emit('')
-        # main guard with definitions that must not be collected
-        if r.random() < 0.5:
-            m.features.add('main-guard')
-            m.emit('')
-            m.emit(r.choice(["if __name__ == '__main__':", 'if __name__ == "__main__":']))
-            n0 = len(m.inventory)
-            d0 = dict(m.docs)
-            keep = list(self.all_stmts)
-            if r.random() < 0.6:
-                cn = self.emit_func(4, 'module')
-            else:
-                cn = self.emit_class(4)
-            for cname, _ in m.inventory[n0:]:
-                m.hidden.append(cname)
-            del m.inventory[n0:]
-            for kname in list(m.docs):
-                if kname not in d0:
-                    self.forget(m.docs[kname])
-                    del m.docs[kname]
-            self.all_stmts = keep
-            m.emit('    print(1)')
+        if not self.guard_done and r.random() < 0.5:
+            self.emit_main_guard()
         return m
 
 
